@@ -93,6 +93,10 @@ class MethodMixin(object):
                 return self.call_value(state.heap[(recv[2], name)], args, kwargs,
                                        state, frame, node)
             return self.ext_method(recv, name, args, kwargs, state, frame, node)
+        if k == "nt" and isinstance(recv[1], str):
+            fi = self.repo.method(recv[1], name)
+            if fi is not None:
+                return self.call_function(fi, recv, args, kwargs, state, frame, node)
         if k == "super":
             return self.ext_method(recv, name, args, kwargs, state, frame, node)
         if k == "mod":
@@ -211,6 +215,12 @@ class MethodMixin(object):
 
     def ext_method(self, recv, name, args, kwargs, state, frame, node):
         """method of something external (base classes, stdlib values)"""
+        if name in ("execute", "executemany", "executescript") and \
+                recv[0] in ("attr", "param", "unknown", "sub", "item", "loopvar"):
+            # a statement run through a handle the analysis cannot identify
+            # would silently vanish from every path: no verdict instead
+            raise AnalysisError("database call .%s() on an unresolved handle %s (%s:%d)" % (
+                name, str(recv[:3])[:80], frame.func.module, node.lineno))
         if recv[0] == "obj" and name == "sendMessage":
             self.ev(state, "send", frame, node, conn=recv,
                     payload=args[0] if args else NONE, args=tuple(args))
